@@ -61,14 +61,14 @@ Section Main.
   Proof.
     intros Hspec Hwf H. destruct (refine_inv _ _ _ _ _ _ _ H) as (p & d & r0 & Ep & Ef & Eu & ->).
     destruct (unflat_inv _ _ _ _ Eu) as (_ & _ & w & Ew & Esk).
-    destruct (fitted_char lsq dev g st vmin_o vmax_o adjust c p Hwf Ep d Hspec Ef) as (Hlen & _ & Hm).
+    destruct (fitted_char lsq hyp dev g st vmin_o vmax_o adjust c p Hwf Ep d Hspec Ef) as (Hlen & _ & Hm).
     destruct (prepare_shape g st vmin_o vmax_o adjust c p Hwf Ep) as (_ & _ & _ & Hdim & _ & Hflat & Hfree & _).
     set (dim := length (d_pos (promoted c))) in *. set (modes := length (d_amp (promoted c))) in *.
     assert (Hd : (dim <= length d)%nat).
     { rewrite Hlen, Hflat, app_length. fold dim. lia. }
     rewrite <- (firstn_skipn dim d) in Hm. rewrite Hfree in Hm.
     apply within_masked_app in Hm.
-    - rewrite Hdim, Esk in Hm. simpl in Hm. destruct Hm as [H1 [H2 H3]].
+    - rewrite Hdim in Esk. rewrite Esk in Hm. simpl in Hm. destruct Hm as [H1 [H2 H3]].
       destruct (H1 eq_refl) as [Hr _]. destruct (H2 eq_refl) as [Hw _].
       apply Qle_bool_iff in Hr. apply Qle_bool_iff in Hw. simpl.
       split; [exact Hr|]. split; [exists w; split; [exact Ew|exact Hw]|].
@@ -94,7 +94,7 @@ Section Main.
   Proof.
     intros Hg Hl. rewrite norm_point_char. unfold to_cart, to_grid, wf_grid, g_dim in *.
     destruct (g_family g).
-    - apply normalize_length. exact Hl.
+    - rewrite normalize_length by exact Hl. symmetry. exact Hl.
     - destruct (g_axes g) as [|a [|b gr]]; try discriminate. simpl. rewrite Hl. reflexivity.
     - destruct (g_axes g) as [|a [|b gr]]; try discriminate. simpl. rewrite Hl. reflexivity.
     - destruct (g_axes g) as [|a [|b [|c gr]]]; try discriminate.
@@ -115,18 +115,18 @@ Section Main.
     pose proof (free_flat_length g st vmin_o vmax_o adjust c p Hwf Ep) as Hfl.
     assert (Es : scatter (p_free p) (p_flat p)
                    (answer_droplet_part adjust (lsq (fit_function dev adjust p) (p_x0 p) (p_lo p) (p_hi p))) = Some d).
-    { rewrite <- writeback_char. destruct (if adjust then _ else _); [injection Ef as <-; reflexivity|discriminate]. }
+    { rewrite <- (writeback_char g st vmin_o vmax_o adjust c p Ep). destruct (if adjust then _ else _); [injection Ef as <-; reflexivity|discriminate]. }
     assert (Hlen : length d = length (p_flat p)) by (eapply scatter_length; eauto).
     assert (Hkeep : nth_error d i = nth_error (p_flat p) i).
     { eapply scatter_keeps; eauto. rewrite Hfree. rewrite nth_error_app1 by (rewrite free_mask_length; lia).
-      unfold dim. rewrite Hdimg. apply free_mask_constrained. exact Hi. }
+      rewrite Hdimg. apply free_mask_constrained. exact Hi. }
     simpl. unfold final_pos, final_position.
     assert (Hd : (dim <= length d)%nat) by (rewrite Hlen, Hflat, app_length; fold dim; lia).
     assert (Lold : length (d_pos r0) = dim) by (rewrite Epos, Hdim, firstn_length; lia).
     rewrite nth_error_copy_many by (rewrite normalised_length; [reflexivity|exact Hg|congruence]).
     assert (Ex : existsb (Nat.eqb i) (constraints g) = true).
     { apply existsb_exists. exists i. split; [exact Hi|apply Nat.eqb_refl]. }
-    rewrite Ex, Epos, Hdim. rewrite nth_error_firstn by lia. rewrite Hkeep, Hflat.
+    rewrite Ex, Epos, Hdim. rewrite nth_error_firstn_lt by lia. rewrite Hkeep, Hflat.
     rewrite nth_error_app1 by (fold dim; lia). rewrite (proj1 (promoted_pos c)). reflexivity.
   Qed.
 
@@ -156,11 +156,11 @@ Section Main.
     intros Hwf Hg H. destruct (refine_inv _ _ _ _ _ _ _ H) as (p & d & r0 & Ep & Ef & Eu & ->).
     destruct (unflat_inv _ _ _ _ Eu) as (_ & Epos & _).
     destruct (prepare_shape g st vmin_o vmax_o adjust c p Hwf Ep) as (Hdimg & _ & _ & Hdim & _ & Hflat & _).
-    destruct (fitted_inr_length lsq dev g st vmin_o vmax_o adjust c p Hwf Ep d Ef) as Hlen.
+    pose proof (fitted_inr_length lsq dev g st vmin_o vmax_o adjust c p Hwf Ep d Ef) as Hlen.
     set (dim := length (d_pos (promoted c))) in *.
     assert (Hd : (dim <= length d)%nat) by (rewrite Hlen, Hflat, app_length; fold dim; lia).
     assert (Lold : length (d_pos r0) = g_dim g) by (rewrite Epos, Hdim, firstn_length; lia).
-    simpl. unfold final_pos, final_position. split.
+    cbn [d_pos]. unfold final_pos, final_position. split.
     - intros Hf i a Ha Hper HL.
       assert (Hi : (i < length (g_axes g))%nat) by (apply nth_error_Some; congruence).
       assert (Hdg : g_dim g = length (g_axes g)) by (unfold g_dim; rewrite Hf; reflexivity).
@@ -225,7 +225,7 @@ Section Main.
     intros Hspec Hwf Hv Hd (vmin & vmax & El & Hlev).
     destruct (prepare_ok g st vmin_o vmax_o adjust c Hd) as [p Ep]; [congruence|].
     destruct (prepare_shape g st vmin_o vmax_o adjust c p Hwf Ep) as (_ & El' & _ & Hdim & _ & Hflat & _).
-    rewrite El in El'. injection El' as <- <-.
+    rewrite El in El'. injection El' as E1 E2. rewrite E1, E2 in Hlev.
     destruct (refine_start_feasible g st vmin_o vmax_o adjust c p Hwf Hv Ep Hlev) as (Hpre & _).
     destruct (fitted_ok lsq dev g st vmin_o vmax_o adjust c p Hwf Ep Hspec Hpre) as [d Ed].
     unfold refine. rewrite Ep, Ed. unfold finish.
